@@ -350,12 +350,19 @@ class CallResolver:
         kwargs = {}
         for arg in expr.args:
             if isinstance(arg, Assign):
-                kwargs[arg.name.name.lexeme] = arg.value.accept(self)
+                name = arg.name.name.lexeme
+                if name in kwargs:
+                    raise CallResolverError(f"Keyword argument repeated: '{name}'")
+                kwargs[name] = arg.value.accept(self)
             else:
                 args.append(arg.accept(self))
+        if expr.callee.level is not None:
+            raise CallResolverError("The notation 'variable[level]' can't be used with function names")
         return LazyCall(expr.callee.name.lexeme, args, kwargs)
 
     def visitVariableExpr(self, expr):
+        if expr.level is not None:
+            raise CallResolverError("The notation 'variable[level]' can't be used within calls")
         return LazyVariable(expr.name.lexeme)
 
     def visitLiteralExpr(self, expr):
